@@ -104,6 +104,10 @@ pub struct ScenarioE {
     /// the instruments carry a specification (tick size, quantity increment, minimum notional)
     #[serde(default)]
     pub with_spec: bool,
+    /// m > 0: operation k uses client order id "e{k mod m}" - clients re-use ids (0 = unique ids);
+    /// the exchange's ledger rules do not mention client order ids
+    #[serde(default)]
+    pub cid_mod: usize,
 }
 
 pub struct SimE;
@@ -201,6 +205,8 @@ fn mk_clock(start: tokio::time::Instant, op: i64, skew_ms: i64) -> impl Fn() -> 
 fn inst_name(i: usize) -> String {
     match PAIRS_E.get(i) {
         Some((b, q)) => format!("{}_{}", ASSETS[*b], ASSETS[*q]),
+        // 5, 6, 7: a configured name in another letter case - still an unknown instrument
+        None if (5..8).contains(&i) => inst_name(i - 5).to_uppercase(),
         None => format!("ghost{i}_usdt"),
     }
 }
@@ -582,7 +588,7 @@ impl Sim for SimE {
                 2 => OpKindE::Snapshot,
                 3 if sub == 1 => OpKindE::Cancel,
                 _ => {
-                    let inst = if rng.chance(1, 12) { 3 + rng.usize(2) } else { rng.usize(n_inst) };
+                    let inst = if rng.chance(1, 12) { 3 + rng.usize(5) } else { rng.usize(n_inst) };
                     let buy = rng.chance(3, 5);
                     let qty_m = *rng.pick(&[1000i64, 1000, 500, 2000, 250, 125, 333]);
                     let mut price_c = rng.range(100, 30_000);
@@ -642,6 +648,7 @@ impl Sim for SimE {
             kill_exchange_at: if sub == 1 && rng.chance(1, 10) { Some(rng.below(t + 2)) } else { None },
             tokio_seed: rng.next_u64(),
             with_spec: rng.chance(1, 3),
+            cid_mod: if rng.chance(1, 5) { 1 + rng.usize(3) } else { 0 },
         }
     }
 
@@ -736,6 +743,7 @@ impl Sim for SimE {
             let mut op_handles = Vec::new();
             for (k, op) in sc.ops.iter().enumerate().take(990_000) {
                 let c = mk_client(k as i64, op.skew_ms);
+                let cid_mod = sc.cid_mod;
                 let kind = op.kind.clone();
                 let at = op.at_ms;
                 let results = results.clone();
@@ -749,7 +757,7 @@ impl Sim for SimE {
                                     exchange: EX,
                                     instrument: &name,
                                     strategy: StrategyId::new(format!("s{k}")),
-                                    cid: ClientOrderId::new(format!("e{k}")),
+                                    cid: ClientOrderId::new(format!("e{}", if cid_mod > 0 { k % cid_mod } else { k })),
                                 },
                                 state: RequestOpen {
                                     side: side_of(*buy),
@@ -791,7 +799,7 @@ impl Sim for SimE {
                                         exchange: EX,
                                         instrument: &name,
                                         strategy: StrategyId::new(format!("s{k}")),
-                                        cid: ClientOrderId::new(format!("e{k}")),
+                                        cid: ClientOrderId::new(format!("e{}", if cid_mod > 0 { k % cid_mod } else { k })),
                                     },
                                     state: RequestCancel { id: None },
                                 })
@@ -951,6 +959,9 @@ impl Sim for SimE {
             stats.probe("operations_overlap");
         }
 
+        if obs.final_trades.as_ref().is_some_and(|t| t.len() > 1_000) {
+            stats.probe("session_with_over_1000_fills");
+        }
         // pass 1: the statement's model; pass 2 (only if pass 1 fails): the recorded-defect variant
         let mut violation: Option<Violation> = None;
         let has_sell = sc.ops.iter().any(|o| matches!(o.kind, OpKindE::Open { buy: false, .. }));
